@@ -359,3 +359,34 @@ def ref_chain(du, local, max_hops=12):
         else: break
         out.append(l)
     return out
+
+
+NO_INDEX_PASS = tuple(x for x in PASS_THROUGH if x not in ("=index",))
+
+
+def promoted_consts(body, op_or_const):
+    """string/int constants of the promoted body a constant operand refers to (`fn::promoted[i]`), else []"""
+    k = op_or_const.const if hasattr(op_or_const, "const") else op_or_const
+    dbg = (k or {}).get("dbg", "") or (k or {}).get("str", "") or ""
+    if "promoted[" not in str(dbg): return []
+    idx = int(str(dbg).split("promoted[")[1].split("]")[0])
+    out = []
+    for b in body.unit.bodies:
+        if b.path == body.path and b.promoted == idx:
+            for s in b.stmts():
+                if s.kind == "assign":
+                    for o in s.ops:
+                        if o.is_const:
+                            if o.cstr() is not None: out.append(o.cstr())
+                            elif o.cint() is not None: out.append(o.cint())
+    return out
+
+
+def const_strings(body, sl, op):
+    """string constants an operand can evaluate to, resolving promoted references"""
+    out = []
+    for k, o in sl.origins(op):
+        if k != "const": continue
+        if o.cstr() is not None and "promoted[" not in o.cstr(): out.append(o.cstr())
+        else: out += [x for x in promoted_consts(body, o) if isinstance(x, str)]
+    return out
